@@ -10,7 +10,7 @@ TECH = "bounded symbolic execution of the real Go code (go/ssa lowered from /rep
 CHECKS = {
  "C10": ("every expression of the reference grammar up to the token bound (and every token sequence at a smaller bound) is parsed by the real parser; acceptance and the truth table of the parsed rewrite are compared with a TypeScript reference by solver query; spelling variants through the real lexer",
          "token choice and spelling variants are explored by forking (viable prefixes), not by the solver; expressions longer than the bound and nesting beyond 11 are outside; reference grammar/evaluator (60 lines) trusted", "4 C10"),
- "C12": ("the real lexer, parser and error rendering are executed on fully symbolic byte strings (all 256 values per byte) and on arbitrary token sequences up to the bound: no panic, bounded steps, positions sane; the REST and gRPC syntax endpoints report the parser's errors for the submitted bytes; every lexeme repeated 19..64 times (runs longer than the lexer's item buffer, pathological nesting)",
+ "C12": ("the real lexer, parser and error rendering are executed on fully symbolic byte strings (all 256 values per byte) and on arbitrary token sequences up to the bound: no panic, bounded steps, positions sane; the REST and gRPC syntax endpoints report the parser's errors for the submitted bytes; every lexeme repeated 19..64 times (runs longer than the lexer's item buffer, pathological nesting); every token of a full document replaced in turn by a non-UTF-8 literal: all messages stay valid UTF-8",
          "inputs longer than the bound are outside; 'linear time' is only asserted as a step bound within the bound; fmt/strings.Builder modelled", "4 C12"),
  "C18": ("string form: decode(encode(x)) == x for every field content within the length bound and decode stability for every byte string within the bound (bytes symbolic); proto and URL legs with opaque symbolic strings of any length",
          "JSON leg not covered (reflection); field lengths enumerated by forking; url.Values treated as a map (no percent-encoding)", "4 C18"),
@@ -22,7 +22,7 @@ CHECKS.update({
          ENGINE_NOTE, "4 C01"),
  "C02": ("request-depth clamp: Check(r) under global G equals Check(0) under eff(r,G) for a fully symbolic 64-bit r; fail-closed: whatever is allowed under depth/width limits is allowed by the unbounded semantics formula; of the subject sets one expansion returns at most max-width - 1 are followed when there are more than max-width (ghost accounting); the REST max-depth parameter is handed on with the meaning of the number sent (strconv.ParseInt as an environment stub returning an arbitrary 64-bit number)",
          ENGINE_NOTE, "4 C02"),
- "C03": ("the k-th storage call of the check fails (k symbolic over every call position, transient or persistent): the answer is an error or the fault-free answer, never allowed-for-denied, never allowed-with-error; hangs are detected as deadlocks of the modelled scheduler; Lemma PF: a failing database operation inside a read call of the real SQL layer (database model) surfaces as an error",
+ "C03": ("the k-th storage call of the check fails (k symbolic over every call position, transient or persistent): the answer is an error or the fault-free answer, never allowed-for-denied, never allowed-with-error (two kinds of failure: a plain error and one that wraps context.Canceled); hangs are detected as deadlocks of the modelled scheduler; Lemma PF: a failing database operation inside a read call of the real SQL layer (database model) surfaces as an error",
          ENGINE_NOTE + "; faults are injected at the MemStore boundary (engine runs) and at the pop boundary of the database model (Lemma PF), so counterexamples cannot be replayed against the real persister", "4 C03"),
 })
 
@@ -33,7 +33,7 @@ CHECKS.update({
          ENGINE_NOTE + "; program space = the skeleton's variants only", "4 C11"),
  "C15": ("every path of the real engine (operator set and recursive-permission configurations) returns: hangs are deadlocks of the modelled scheduler, runaway recursion exceeds the call-depth budget; storage calls bounded; cancellation before the call or inside storage call c (symbolic c); after return and context release no modelled goroutine is left blocked",
          ENGINE_NOTE + "; goroutines, channels, select, sync and context are the executor's models of Go's semantics", "4 C15"),
- "C16": ("the real Mapper (FromTuple/ToTuple/FromQuery/ToQuery/ToTree) on batches of tuples whose names are opaque symbolic strings with solver-decided equalities: position-wise round trip, right id in the right field, equal strings equal ids, read-only mapper never writes",
+ "C16": ("the real Mapper (FromTuple/ToTuple/FromQuery/ToQuery/ToTree) on batches of tuples whose names are opaque symbolic strings with solver-decided equalities: position-wise round trip, right id in the right field, equal strings equal ids, read-only mapper never writes; SQL side: two networks sharing the mapping table read back their own names, names written after a rolled-back attempt are readable",
          "engine-side runs: the MappingManager is an injective table stub; SQL-side runs: the real MapStringsToUUIDs / batchFromUUIDs / MapUUIDsToStrings on a model keto_uuid_mappings table (symbolic presence of pre-existing mappings, lookup page 1..3 or default, every order of the id map up to 3 entries, batches of 99..102 (thorough ..249) distinct names with repeats at the default page of 100); batch shapes are enumerated by forking, names in the SQL runs come from a fixed adversarial pool", "4 C16"),
 })
 
